@@ -18,6 +18,15 @@ struct SpectraVerifAccess {
         for (long j = 0; j < k; j++) for (long i = 0; i < n; i++) feed(f.m_fac_V(i, j));
         return "k=" + str(k) + " beta=e:" + str(dbits(f.m_beta)) + " hash=" + str(h);
     }
+    // Scalar = std::complex<double>: beta, then re and im of every entry of H, f and the first k columns of V
+    template <class F> static std::string fachashc(const F& f) {
+        uint64_t h = 1469598103934665603ull; auto feed = [&h](double x) { uint64_t u = dbits(x + 0.0); for (int b = 0; b < 8; b++) { h ^= (u >> (8 * b)) & 0xff; h *= 1099511628211ull; } };
+        feed(f.m_beta); const long m = f.m_m, n = f.m_n, k = f.m_k;
+        for (long j = 0; j < m; j++) for (long i = 0; i < m; i++) { feed(f.m_fac_H(i, j).real()); feed(f.m_fac_H(i, j).imag()); }
+        for (long i = 0; i < n; i++) { feed(f.m_fac_f[i].real()); feed(f.m_fac_f[i].imag()); }
+        for (long j = 0; j < k; j++) for (long i = 0; i < n; i++) { feed(f.m_fac_V(i, j).real()); feed(f.m_fac_V(i, j).imag()); }
+        return "k=" + str(k) + " beta=e:" + str(dbits(f.m_beta)) + " hash=" + str(h);
+    }
     template <class F> static std::string fachash32(const F& f) {
         uint64_t h = 1469598103934665603ull; auto feed = [&h](float x) { uint32_t u = fbits(x + 0.0f); for (int b = 0; b < 4; b++) { h ^= (u >> (8 * b)) & 0xff; h *= 1099511628211ull; } };
         feed(f.m_beta); const long m = f.m_m, n = f.m_n, k = f.m_k;
@@ -41,6 +50,8 @@ struct Api {
     std::function<bool()> alias;
     std::function<std::string()> fachash;            // set for the classes the Lean solver model covers
     std::string req, resp;                           // correspondence request / response being built
+    bool cplxvec = false;                            // eigenvector entries are printed as re im (general family, complex Hermitian)
+    std::function<std::string(const Vec&)> v0bits;   // how init(v0) travels in the request (default: the real vector)
 };
 
 static bool herm_sel_ok(int r) { return r == 0 || r == 3 || r == 4 || r == 7 || r == 8; }
@@ -71,7 +82,7 @@ static void run_history(Api& a, const std::vector<Call>& calls, Ctx& c) {
         auto rj = [&]() { return hist_json(c, a, calls, ci); };
         if (k.kind == 'I' || k.kind == 'J') {
             int info0 = a.info();
-            if (a.fachash) a.req += (k.kind == 'I' ? std::string(" | I") + vec_bits(k.v0) : std::string(" | J"));
+            if (a.fachash) a.req += (k.kind == 'I' ? std::string(" | I") + (a.v0bits ? a.v0bits(k.v0) : vec_bits(k.v0)) : std::string(" | J"));
             try { a.resetcount(); a.init(k.kind == 'I' ? &k.v0 : nullptr); inited = true; }
             catch (const std::invalid_argument&) { out.count("oracle_init_throw"); if (a.fachash) a.resp += " | throw std::invalid_argument"; continue; }
             if (a.fachash) a.resp += " | ok nmatop=" + str(a.nmatop());
@@ -108,7 +119,7 @@ static void run_history(Api& a, const std::vector<Call>& calls, Ctx& c) {
             a.resp += " | ret=" + str(r) + " info=" + str(a.info()) + " niter=" + str(a.niter()) + " nmatop=" + str(a.nmatop());
             a.req += " | E | V " + str(a.nev) + " | F";
             CVec e1 = a.evals(); a.resp += ev_bits(a, e1);
-            CMat X1 = a.evecs(a.nev, false); a.resp += " | rows=" + str(a.n) + " cols=" + str((long) X1.cols()); for (long j = 0; j < X1.cols(); j++) for (long i = 0; i < X1.rows(); i++) { a.resp += " " + str(dbits(X1(i, j).real() + 0.0)); if (a.gen) a.resp += " " + str(dbits(X1(i, j).imag() + 0.0)); }
+            CMat X1 = a.evecs(a.nev, false); a.resp += " | rows=" + str(a.n) + " cols=" + str((long) X1.cols()); for (long j = 0; j < X1.cols(); j++) for (long i = 0; i < X1.rows(); i++) { a.resp += " " + str(dbits(X1(i, j).real() + 0.0)); if (a.gen || a.cplxvec) a.resp += " " + str(dbits(X1(i, j).imag() + 0.0)); }
             a.resp += " | " + a.fachash();
         }
         if (threw) {
@@ -194,8 +205,21 @@ static std::function<LD(CD, const CVec&)> pair_gen(const Mat& A, const Mat& B, L
 
 struct CntSymProd : public Spectra::DenseSymMatProd<double> { OpLog* log; CntSymProd(const Mat& A, OpLog& l) : Spectra::DenseSymMatProd<double>(A), log(&l) {}
     void perform_op(const double* x, double* y) const { log->enter(x, y, rows()); Spectra::DenseSymMatProd<double>::perform_op(x, y); } };
-struct CntHermProd : public Spectra::DenseHermMatProd<CD> { OpLog* log; CntHermProd(const CMat& A, OpLog& l) : Spectra::DenseHermMatProd<CD>(A), log(&l) {}
-    void perform_op(const CD* x, CD* y) const { log->count++; if (x == y) log->alias_seen = true; Spectra::DenseHermMatProd<CD>::perform_op(x, y); } };
+// y = M x for a complex M, each row accumulated left to right from (+0, +0) in std::complex arithmetic (HermCplx.crowMajorOp of the model)
+struct CLoopMatOp {
+    using Scalar = CD; const CMat* M; OpLog* log;
+    CLoopMatOp(const CMat& m, OpLog& l) : M(&m), log(&l) {}
+    Eigen::Index rows() const { return M->rows(); } Eigen::Index cols() const { return M->cols(); }
+    void perform_op(const CD* x, CD* y) const { const long n = M->rows(), m = M->cols(); log->count++; if (x == y || (x < y + n && y < x + m)) log->alias_seen = true;
+        for (long i = 0; i < n; i++) { CD s(0.0, 0.0); for (long j = 0; j < m; j++) s += (*M)(i, j) * x[j]; y[i] = s; } }
+};
+static CVec cplx_start(const Vec& v) { const long n = v.size(); CVec z = v.cast<CD>(); for (long i = 0; i < n; i++) z[i] += CD(0, 0.5 * v[(i + 1) % n]); return z; }
+static std::string hermc_header(int n, int nev, int ncv, const CMat& M) {
+    const double eps = Spectra::TypeTraits<double>::epsilon(); const double eps23 = std::pow(eps, double(2) / 3); const double near0 = Spectra::TypeTraits<double>::min() * double(10);
+    std::string s = "hermc " + str(n) + " " + str(nev) + " " + str(ncv) + " " + str(dbits(eps23)) + " " + str(dbits(near0)) + " " + str(dbits(eps));
+    for (long i = 0; i < n; i++) for (long j = 0; j < n; j++) { s += " " + str(dbits(M(i, j).real())); s += " " + str(dbits(M(i, j).imag())); }
+    return s;
+}
 // Re[(A - sigma I)^{-1} x] with the shift the solver installs; applications at the constructor's shift are "the iteration"
 struct CplxShiftOp {
     using Scalar = double; const Mat* A; OpLog* log; Mat R; double sr0, si0; bool have0 = false; mutable long probe = 0; double sr = 0, si = 0;
@@ -301,11 +325,18 @@ int main(int argc, char** argv) {
                   Spectra::SymEigsShiftSolver<LoopMatOp> s(op, nev, ncv, sigma); a.cls = "SymEigsShiftSolver"; common_api(a, s, log); a.resid = pair_std(A, A.norm() + std::fabs(sigma) + 1e-300);
                   if (ncv <= 16) { a.fachash = [&s]() { return SpectraVerifAccess::fachash(SpectraVerifAccess::fac(s)); }; a.req = herm_header(1, n, nev, ncv, sigma, Inv); }
                   run_history(a, calls, c); if (a.fachash) out.corr(a.req, a.resp.size() > 3 ? a.resp.substr(3) : a.resp); break; }
-        case 2: { Mat Re = gen_sym(r, n, kind, scale); Mat Im = gen_general(r, n, 1, scale * 0.3); CMat A = Re.cast<CD>() + CD(0, 1) * Im.cast<CD>(); CntHermProd op(A, log);
-                  Spectra::HermEigsSolver<CntHermProd> s(op, nev, ncv); a.cls = "HermEigsSolver"; common_api<decltype(s), false>(a, s, log);
-                  a.init = [&s, n](const Vec* v) { if (v) { CVec z = v->cast<CD>(); for (int i = 0; i < n; i++) z[i] += CD(0, 0.5 * (*v)[(i + 1) % n]); s.init(z.data()); } else s.init(); };
-                  LD sc = A.norm() + 1e-300; a.resid = [A](CD lam, const CVec& x) { LD an = A.norm(); CVec r = A * x - lam * x; return (LD) r.norm() / ((an + std::abs(lam)) * (LD) x.norm() + 1e-300L); }; (void) sc;
-                  run_history(a, calls, c); break; }
+        case 2: { Vec dspec; Mat Re = gen_sym(r, n, kind, scale, &dspec); Mat Im = gen_general(r, n, 1, scale * 0.3); CMat A = Re.cast<CD>() + CD(0, 1) * Im.cast<CD>();
+                  // half of the structured-spectrum cases: U diag(d) U^H with a random unitary U, so that repeated / low-rank / clustered spectra survive
+                  // (Krylov breakdowns -> the complex expand_basis / restart branches of Lanczos); otherwise symmetric + i * skew (generic Hermitian)
+                  if (kind != 5 && kind != 7 && r.coin(0.5)) { CMat Z(n, n); for (int i = 0; i < n; i++) for (int j = 0; j < n; j++) Z(i, j) = CD(r.sym(), r.sym());
+                      Eigen::HouseholderQR<CMat> qr(Z); CMat U = qr.householderQ(); CMat T = U * dspec.cast<CD>().asDiagonal() * U.adjoint(); A = (0.5 * (T + T.adjoint())).eval(); out.count("hermc_unitary_spectrum"); }
+                  CLoopMatOp op(A, log);
+                  Spectra::HermEigsSolver<CLoopMatOp> s(op, nev, ncv); a.cls = "HermEigsSolver"; common_api<decltype(s), false>(a, s, log);
+                  a.init = [&s](const Vec* v) { if (v) { CVec z = cplx_start(*v); s.init(z.data()); } else s.init(); };
+                  a.resid = [A](CD lam, const CVec& x) { LD an = A.norm(); CVec r = A * x - lam * x; return (LD) r.norm() / ((an + std::abs(lam)) * (LD) x.norm() + 1e-300L); };
+                  if (ncv <= 16) { a.fachash = [&s]() { return SpectraVerifAccess::fachashc(SpectraVerifAccess::fac(s)); }; a.req = hermc_header(n, nev, ncv, A); a.cplxvec = true;
+                      a.v0bits = [](const Vec& v) { CVec z = cplx_start(v); std::string t; for (long i = 0; i < z.size(); i++) { t += " " + str(dbits(z[i].real())); t += " " + str(dbits(z[i].imag())); } return t; }; }
+                  run_history(a, calls, c); if (a.fachash) { out.corr(a.req, a.resp.size() > 3 ? a.resp.substr(3) : a.resp); out.count("hermc_lines"); } break; }
         case 3: { Mat A = gen_general(r, n, kind % 7, scale); LoopMatOp op(A, log); Spectra::GenEigsSolver<LoopMatOp> s(op, nev, ncv); a.cls = "GenEigsSolver"; common_api(a, s, log); a.resid = pair_std(A, A.norm() + 1e-300);
                   if (ncv <= 16) { a.fachash = [&s]() { return SpectraVerifAccess::fachash(SpectraVerifAccess::fac(s)); }; a.req = gen_header(0, n, nev, ncv, 0.0, 0.0, A); }
                   run_history(a, calls, c); if (a.fachash) out.corr(a.req, a.resp.size() > 3 ? a.resp.substr(3) : a.resp); break; }
